@@ -4,8 +4,17 @@ schema 1.x / 2.x) and an adversarial-call search on the sanitizer harness."""
 from props import _combine
 
 _combine.install(globals(), "C15", ["C15_tracks_v1", "C15_tracks_v2", "C15_crates_v1", "C15_crates_v2", "C15_search"], dict(
-    text="",
-    note="see design/C15.md",
+    text="Partial: theorems `forall reachable / invariant-satisfying state, forall operation with ANY argument values, "
+         "outcome != ub` over the four executable API models (tracks / crates x schema 1.x / 2.x), in which every "
+         "undefined-behaviour source of the library's own code (vector index, empty-optional dereference, signed "
+         "overflow, double->int cast range, division by zero, fixed-size buffer, missing chain tail, unbounded walk / "
+         "recursion) is an explicit `ub` outcome or the guard the code has; stale-handle theorems (is_valid = false, "
+         "id / copy ok).  Tied on every run by adversarial scripts executed on the sanitizer harness and on the models "
+         "(outcome classes incl. `ub` must agree) with the direct oracle `no call ends in ub`.",
+    note="Limits: memory safety of SQLite, sqlite_modern_cpp, libstdc++ internals and zlib under these calls is observed "
+         "by ASan / UBSan / _GLIBCXX_ASSERTIONS during the tie only; the blob codecs are C05's theorems; crates 2.x "
+         "ordered queries assume the chain / forest invariant proved reachable by C09 / C11; 1.x calls through a stale "
+         "track handle are compared as defined-vs-undefined only.  See design/C15.md.",
     technique="Lean 4 no-ub theorems over the executable API models (every modelled undefined-behaviour source is an "
               "explicit `ub` outcome) + sanitizer-instrumented differential replay with adversarial arguments",
     ref="6/C15"))
